@@ -177,7 +177,7 @@ func (h *simHist) setRoots() error {
 		return nil
 	}
 	simCAInit()
-	if err := h.in.l.SetRootsFromPEM(simInlineCtx(context.Background()), simCA.pem); err != nil {
+	if err := h.in.l.SetRootsFromPEM(simInlineCtx(context.Background()), append(bytes.Clone(simCA.pem), simHTTPExtraRootsPEM...)); err != nil {
 		return fmt.Errorf("VERIF-INCONCLUSIVE: SetRootsFromPEM: %v", err)
 	}
 	return nil
